@@ -98,6 +98,9 @@ def subst_case(draw, kinds=PLAIN_KINDS, sat=True, depth_choices=(0, 1, 1, 2, 2, 
     else:
         spec = draw(specs.spec_strategy(depth=depth,
                                         sat=sat if isinstance(sat, bool) else draw(st.booleans())))
+    share = draw(st.integers(0, 3)) == 0
+    if share:
+        spec = specs.with_repeats(draw, spec)
     kind = draw(st.sampled_from(kinds))
     if any_of_relaxed and draw(st.booleans()):
         kind = "extra-keys-sparse"      # an unknown key added and declared keys left out
@@ -125,7 +128,8 @@ def subst_case(draw, kinds=PLAIN_KINDS, sat=True, depth_choices=(0, 1, 1, 2, 2, 
     except values.Unsat:
         kind = "unsat->junk"
         v = draw(values.junk)
-    return {"spec": spec, "value": v, "full": full, "kind": kind, "rng": draw(rng.script_strategy(30))}
+    return {"spec": spec, "value": v, "full": full, "kind": kind, "rng": draw(rng.script_strategy(30)),
+            "share": share}
 
 
 def carries(v, w, float_tol=0.0):
